@@ -34,9 +34,11 @@ static std::vector<std::unique_ptr<KeyCfg>> KC;
 static Pool POOL;
 static std::map<std::string, const KeySpec *> ATTACKER;  // own key pairs of the attacker, per family/curve
 
-enum Route { R_SETKEY, R_CB_BOTH, R_CB_KEY, R_CB_ALG, R_N };
-static const char *RN[] = {"setkey", "cb-selects-key+alg", "cb-selects-key", "setkey(none,key)+cb-sets-alg"};
+enum Route { R_SETKEY, R_CB_BOTH, R_CB_KEY, R_CB_ALG, R_SWAP_KEY, R_N };
+static const char *RN[] = {"setkey", "cb-selects-key+alg", "cb-selects-key", "setkey(none,key)+cb-sets-alg", "setkey(none,sibling-key-with-alg-attr)+cb-swaps-key"};
 
+// a configuration of the SAME key that carries an alg attribute of its family (the checker's default key before a callback swaps it)
+static const KeyCfg *sibling_with_attr(const KeyCfg *kc) { for (auto &o : KC) if (o->k == kc->k && o.get() != kc && o->has_attr && o->attr_alg != JWT_ALG_NONE && o->attr_alg < JWT_ALG_INVAL && family_ok(*o->k, o->attr_alg)) return o.get(); return nullptr; }
 static const char *alg_label(int a) { if (a == JWT_ALG_NONE) return "none"; if (a >= JWT_ALG_INVAL) return "INVAL"; return jwt_alg_str((jwt_alg_t)a); }
 
 static std::string raw_pub(const KeySpec &k) {
@@ -116,7 +118,7 @@ struct CbCtx { const jwk_item_t *key; jwt_alg_t alg; int mode; };
 static int cb_fn(jwt_t *, jwt_config_t *c) {
   CbCtx *x = (CbCtx *)c->ctx;
   if (x->mode == R_CB_BOTH) { c->key = x->key; c->alg = x->alg; }
-  else if (x->mode == R_CB_KEY) { c->key = x->key; }
+  else if (x->mode == R_CB_KEY || x->mode == R_SWAP_KEY) { c->key = x->key; }
   else if (x->mode == R_CB_ALG) { c->alg = x->alg; }
   return 0;
 }
@@ -183,6 +185,8 @@ static bool verify_cell(Cell c, bool count = true) {
   case R_CB_BOTH: jwt_checker_setcb(ch, cb_fn, &cx); break;
   case R_CB_KEY: if (c.E != JWT_ALG_NONE) skip = true; jwt_checker_setcb(ch, cb_fn, &cx); break;
   case R_CB_ALG: if (!item || jwt_checker_setkey(ch, JWT_ALG_NONE, item)) skip = true; jwt_checker_setcb(ch, cb_fn, &cx); break;
+  case R_SWAP_KEY: { const KeyCfg *sib = kc ? sibling_with_attr(kc) : nullptr; if (!sib || c.E != JWT_ALG_NONE) { skip = true; break; }
+      const jwk_item_t *si = sib->k->kind == K_OCT ? sib->priv.item : sib->pub.item; if (jwt_checker_setkey(ch, JWT_ALG_NONE, si)) skip = true; jwt_checker_setcb(ch, cb_fn, &cx); break; }
   }
   bool ok = true;
   if (skip) { jwt_checker_free(ch); return true; }
@@ -249,6 +253,8 @@ static bool builder_cell(Cell c, bool count = true) {
   case R_CB_BOTH: jwt_builder_setcb(b, cb_fn, &cx); break;
   case R_CB_KEY: if (c.E != JWT_ALG_NONE) skip = true; jwt_builder_setcb(b, cb_fn, &cx); break;
   case R_CB_ALG: if (!item || jwt_builder_setkey(b, JWT_ALG_NONE, item)) skip = true; jwt_builder_setcb(b, cb_fn, &cx); break;
+  case R_SWAP_KEY: { const KeyCfg *sib = kc ? sibling_with_attr(kc) : nullptr; if (!sib || c.E != JWT_ALG_NONE) { skip = true; break; }
+      if (jwt_builder_setkey(b, JWT_ALG_NONE, sib->priv.item)) skip = true; jwt_builder_setcb(b, cb_fn, &cx); break; }
   }
   if (skip) { jwt_builder_free(b); return true; }
   bool ok = true;
@@ -412,6 +418,7 @@ int main(int argc, char **argv) {
         for (int route = 0; route < R_N; route++)
           for (int pub = 0; pub < 2; pub++) {
             if (kci < 0 && (pub || (route != R_SETKEY && route != R_CB_BOTH))) continue;
+            if (route == R_SWAP_KEY) continue;   // builder: the callback is handed the key's alg as config.alg, so a swapped key is judged against THAT alg (modelled in C10/C13)
             Cell c{prov, route, E, kci, 0, 0, true, pub == 1, ""};
             if (!builder_cell(c) && st.violations.size() >= 12) goto done;
           }
